@@ -36,6 +36,7 @@ fn gens(tier: Tier) -> Vec<Gen> {
         Gen { name: "alphabet-connect", count: strings_upto(tier.pick(4, 6)), exhaustive: true, run: run_alpha_connect },
         Gen { name: "mutation", count: tier.pick(20_000, 1_500_000), exhaustive: false, run: run_mutation },
         Gen { name: "endless", count: tier.pick(400, 6_000), exhaustive: false, run: run_endless },
+        Gen { name: "many-fields", count: (6 * 3 * 2) as u64, exhaustive: true, run: run_many_fields },
         Gen { name: "blowup", count: tier.pick(600, 20_000), exhaustive: false, run: run_blowup },
     ]
 }
@@ -88,6 +89,9 @@ pub const N_API: u8 = 9;
 /// Drive everything to the end under the monitors.
 pub fn drive(ctx: &mut Ctx, h: Hostile) {
     // transports are built before the heap window opens: only the client's allocations are measured
+    // every line of a head may become a header-map entry (name, value and table slot cost far more
+    // than a short line's bytes): memory per RECEIVED line is legitimate
+    let lines_scripted: usize = h.steps.iter().map(|s| if let Step::Data(d) = s { d.iter().filter(|&&b| b == b'\n').count() } else { 0 }).sum();
     let world = World::prebuilt(&h.steps, 6);
     let heap = HeapWindow::start();
     let url = match h.entry {
@@ -230,7 +234,7 @@ pub fn drive(ctx: &mut Ctx, h: Hostile) {
         // `delivered` is 0) - never to a size merely declared on the wire
         let lower = h.input.to_ascii_lowercase();
         let coded = lower.windows(4).any(|w| w == b"gzip") || lower.windows(7).any(|w| w == b"deflate");
-        let bound = 256 * 1024 + 4 * (served + delivered) + if coded { 2 * 1032 * served } else { 0 };
+        let bound = 256 * 1024 + 4 * (served + delivered) + if coded { 2 * 1032 * served } else { 0 } + 160 * lines_scripted;
         ctx.max("max_peak_heap", peak as u64);
         ctx.max("max_single_allocation", largest as u64);
         if peak > bound {
@@ -509,3 +513,25 @@ fn run_blowup(ctx: &mut Ctx, rng: &mut Rng, index: u64) {
 
 #[allow(dead_code)]
 fn _unused(_: &c01::Case) {}
+
+/// heads with tens of thousands of distinct header fields under limits above them: around 2^15
+/// fields the header map of the `http` crate is full - still Ok or Err, never a panic
+fn run_many_fields(ctx: &mut Ctx, _rng: &mut Rng, index: u64) {
+    if crate::framework::small_mode() {
+        // hundreds of kilobytes of head: too slow under an interpreter, covered by the native run
+        ctx.gray();
+        return;
+    }
+    let n = [24_575usize, 24_577, 32_767, 32_768, 32_769, 40_001][(index % 6) as usize];
+    let limit = [40_000usize, 1 << 20, usize::MAX][((index / 6) % 3) as usize];
+    let tunnel = (index / 18) % 2 == 1;
+    let mut wire = if tunnel { b"HTTP/1.1 200 Connection established\r\n".to_vec() } else { b"HTTP/1.1 200 OK\r\n".to_vec() };
+    for i in 0..n {
+        wire.extend_from_slice(format!("x-h{i}: v\r\n").as_bytes());
+    }
+    wire.extend_from_slice(if tunnel { b"\r\n" } else { b"Content-Length: 2\r\n\r\nok" });
+    ctx.count("heads_with_tens_of_thousands_of_fields", 1);
+    let steps = vec![Step::Data(wire.clone())];
+    let input = wire[..200].to_vec();
+    drive(ctx, Hostile { steps, entry: if tunnel { Entry::Tunnel } else { Entry::Direct }, api: (index % N_API as u64) as u8, endless_bound: None, max_headers: Some(limit), label: format!("{n} distinct header fields under max_headers={limit}"), input, wellformed: false });
+}
